@@ -713,6 +713,7 @@ func (ft *FT) run() {
 		}
 	}
 	// receiver of a pointer method is commonly non-nil only by contract; nothing assumed.
+	ft.emitAxioms(st0)
 	// preconditions
 	if ft.con != nil {
 		ctx := ft.specCtx(st0, st0)
@@ -968,5 +969,45 @@ func (ft *FT) loopBack(li *loopInfo, from *ssa.BasicBlock, st *State) {
 		if err == nil {
 			ft.oblige("decreases", pos, fmt.Sprintf("loop %d: %s", li.ordinal, li.con.Decreases.Text), g, and(app("<", v.T, li.variant), app("<=", "0", li.variant)), true)
 		}
+	}
+}
+
+// emitAxioms adds the trusted axioms of the library specs and of the function's own package.
+func (ft *FT) emitAxioms(st *State) {
+	pkg := ft.fnPkg()
+	for _, ax := range ft.eng.cons.Axioms {
+		if ax.Lemma {
+			continue
+		}
+		if ax.PkgName != "" && (pkg == nil || pkg.Name() != ax.PkgName) {
+			continue
+		}
+		ctx := &SpecCtx{ft: ft, pkg: pkg, st: st, old: st, vars: map[string]SpecVal{}}
+		if ax.PkgName != "" {
+			ctx.pkg = ft.eng.pkgByName[ax.PkgName]
+		}
+		var qv [][2]string
+		func() {
+			defer func() {
+				if r := recover(); r != nil {
+					ft.errf("axiom %s: %v", ax.Name, r)
+				}
+			}()
+			for _, fld := range ax.Vars {
+				t := ctx.resolveType(fld.Type)
+				for _, n := range fld.Names {
+					boundCtr++
+					bn := fmt.Sprintf("%s!a%d", n.Name, boundCtr)
+					ctx.vars[n.Name] = SpecVal{T: bn, Typ: t, Sort: ft.d.sortOf(t)}
+					qv = append(qv, [2]string{bn, ft.d.sortOf(t)})
+				}
+			}
+			body, err := ctx.boolExpr(ax.Expr)
+			if err != nil {
+				ft.errf("axiom %s: %v", ax.Name, err)
+				return
+			}
+			ft.d.axiom("user "+ax.Name, forall(qv, body))
+		}()
 	}
 }
